@@ -525,6 +525,31 @@ def _d7_layout(chk, prog, layout, lits, queries):
             got.append((getattr(brow, "id", None), [(a, int(T(b).cval()), int(T(e_).cval())) for a, b, e_ in zip(sub.cols["id"].v, sub.cols["start"].v, sub.cols["end"].v)] if isinstance(sub, DF) else list(sub)))
         tb.cell(got == want, dict(layout=layout, mode=mode, keep_empty=keep, got=got, want=want))
     tb.done("by_ranges does not give one (query, rows) pair per query range in order (a chromosome missing from the table must yield empty results when keep_empty)")
+    # the method on the table class: the same pairs, a query range that selects nothing being listed iff keep_empty (whether its chromosome is in the table or not)
+    fm = prog.fn("skgenome.gary.GenomicArray.by_ranges")
+    tbm = Table(chk, "one-per-query", f"GenomicArray.by_ranges on literal tables ({layout}): query ranges without any row are listed iff keep_empty", fm.loc(), fm.qn)
+    for mode, keep in itertools.product(["outer", "inner", "trim"], [True, False]):
+        W.reset()
+        ga_t = GA("GenomicArray", mk(lits, "t"), len(lits), {})
+        ga_o = GA("GenomicArray", mk(queries, "q"), len(queries), {})
+        it = Interp(prog)
+        out = tbm.guard(lambda: list(it.run_method(ga_t, "by_ranges", [ga_o], dict(mode=mode, keep_empty=keep))), f"method mode={mode} keep_empty={keep}")
+        if out is None:
+            continue
+        want = []
+        for c in dict.fromkeys(q[0] for q in queries):
+            for qi, q in enumerate(queries):
+                if q[0] != c:
+                    continue
+                if mode == "inner":
+                    hit = [f"t{i}" for i, r in enumerate(lits) if r[0] == c and r[1] >= q[1] and r[2] <= q[2]]
+                else:
+                    hit = [f"t{i}" for i, r in enumerate(lits) if r[0] == c and r[2] > q[1] and r[1] < q[2]]
+                if hit or keep:
+                    want.append((f"q{qi}", hit))
+        got = [(getattr(brow, "id", None), list(sub.data.cols["id"].v) if isinstance(sub, GA) else repr(sub)[:40]) for brow, sub in out]
+        tbm.cell(got == want, dict(layout=layout, mode=mode, keep_empty=keep, got=got, want=want))
+    tbm.done("GenomicArray.by_ranges lists a query range that selects no row although keep_empty is off (or drops one although it is on)")
     fs = prog.fn("skgenome.intersect.iter_slices")
     tb2 = Table(chk, "one-per-query", f"iter_slices on literal tables ({layout}) with index labels that are not positions: label arrays per query range", fs.loc(), fs.qn)
     labels = [40, 31, 22, 13, 4]
